@@ -130,7 +130,7 @@ func c16Pick(label string, vals ...time.Duration) time.Duration {
 // VerifH_C16_exitDelay: exit delay E; probing phase of any listed duration (shorter, equal,
 // longer than E); a reply arriving t < E after the last probe; generic and packet style engines.
 func VerifH_C16_exitDelay() {
-	const E = 300 * time.Millisecond
+	E := c16Pick("exitDelay", 300*time.Millisecond, time.Millisecond, 90*time.Millisecond, 250*time.Millisecond, time.Second, 1250*time.Millisecond)
 	verifNow() // start of the harness clock
 	ctx, cancel := context.WithCancel(context.Background())
 	defer cancel()
